@@ -794,7 +794,14 @@ impl ServiceGenerator<'_> {
                         async move {
                             match resp.await? {
                                 #response_ident::#camel_case_idents(msg) => ::core::result::Result::Ok(msg),
-                                _ => ::core::unreachable!(),
+                                // A response of another method: the peer is at fault, not the caller.
+                                _ => ::core::result::Result::Err(::tarpc::client::RpcError::Server(
+                                    ::tarpc::ServerError::new(
+                                        ::std::io::ErrorKind::InvalidData,
+                                        <::std::string::String as ::core::convert::From<&str>>::from(
+                                            "the response does not belong to the method that was called"),
+                                    ),
+                                )),
                             }
                         }
                     }
